@@ -44,6 +44,14 @@ Proof.
     etransitivity; [exact Hy|]. apply Nat.le_max_r.
 Qed.
 
+Ltac ws_step sb Hw :=
+  match goal with
+  | |- context [run_f sb ?f (?w ++ ?more) (T ?c (mksrec S_eatws ?sv ?cur ?nm :: ?below) ?g ?hi ?off) (mkloc ?x ?nb ?lo ?ln)] =>
+      let f' := fresh "f" in let x' := fresh "x" in let Hf' := fresh "Hf" in
+      destruct (run_ws sb c w f sv cur nm below g hi off x nb lo ln more) as (f' & x' & Hf' & ->);
+      [ first [assumption | unfold REDO_FUEL; lia] | exact Hw | ]
+  end.
+
 Section S.
 Variable sb : list byte -> Z.
 
@@ -114,21 +122,21 @@ Proof.
   rewrite ER.
   assert (F16 : (8 <= REDO_FUEL)%nat) by (unfold REDO_FUEL; lia).
   (* blanks, opening quote, name, closing quote *)
-  destruct (run_ws sb c a f svs (JObj acc) None below g 0 off x nb lo None _ Hf Hwa) as (f1 & x1 & Hf1 & ->).
+  ws_step sb Hwa.
   rewrite obj_name_open; [|exact Hs|lia].
-  destruct (str_body sb c S_object_field k (or_intror eq_refl) Hwk REDO_FUEL 0 [] svs (g_dbl g) (g_sp g) (g_ucs g) below (JObj acc) None
-              (off + zlen a + 1) 34 nb lo (34 :: b ++ 58 :: cw ++ render v ++ d ++ tl_ ++ rest) F16 (or_introl eq_refl))
-    as (f2 & x2 & hi2 & pend & svx2 & sp2 & uc2 & Hf2 & Hhi2 & Hp & ->).
-  destruct (str_close sb c S_object_field (or_intror eq_refl) f2 hi2 pend svx2 (g_dbl g) sp2 uc2 below (JObj acc) None
-              (off + zlen a + 1 + zlen (render_chars k)) x2 nb lo (b ++ 58 :: cw ++ render v ++ d ++ tl_ ++ rest) Hf2 Hhi2)
-    as (g3 & ->).
+  match goal with |- context [run_f sb REDO_FUEL (render_chars k ++ ?more) (SS c _ _ _ _ _ _ _ ?dd ?ss ?uu ?oo) (mkloc ?xx nb ?ll None)] =>
+    destruct (str_body sb c S_object_field k (or_intror eq_refl) Hwk REDO_FUEL 0 [] svs dd ss uu below (JObj acc) None
+                oo xx nb ll more F16 (or_introl eq_refl))
+      as (f2 & x2 & hi2 & pend & svx2 & sp2 & uc2 & Hf2 & Hhi2 & Hp & ->) end.
+  match goal with |- context [run_f sb f2 (34 :: ?more) (SS c _ _ _ _ _ _ _ ?dd ?ss ?uu ?oo) (mkloc ?xx nb ?ll None)] =>
+    destruct (str_close sb c S_object_field (or_intror eq_refl) f2 hi2 pend svx2 dd ss uu below (JObj acc) None
+                oo xx nb ll more Hf2 Hhi2) as (g3 & ->) end.
   cbn [close_top]. rewrite <- Hp. cbn [app]. rewrite dec_decode, Hkey.
   (* blanks, colon, blanks *)
-  destruct (run_ws sb c b REDO_FUEL S_object_field_end (JObj acc) (Some (decode k)) below g3 0 _ 34 nb lo None
-              (58 :: cw ++ render v ++ d ++ tl_ ++ rest) F16 Hwb) as (f4 & x4 & Hf4 & ->).
+  ws_step sb Hwb.
   rewrite obj_colon by lia.
-  destruct (run_ws sb c cw REDO_FUEL S_object_value (JObj acc) (Some (decode k)) below g3 0 _ 58 nb lo None
-              (render v ++ d ++ tl_ ++ rest) F16 Hwc) as (f5 & x5 & Hf5 & ->).
+  ws_step sb Hwc.
+  rename f1 into f5.
   (* the push *)
   destruct (render_first v Hwv) as (x0 & tl0 & Ex0 & Hx0).
   set (tailb := d ++ tl_ ++ rest).
@@ -146,8 +154,7 @@ Proof.
   { cbn [zlen]. lia. }
   { subst tailb. apply fol_rest_ws; [exact Hwd|]. subst tl_. destruct r; reflexivity. }
   subst tailb.
-  destruct (run_ws sb c d f7 S_finish (value sb v) None (mksrec S_object_value_add S_object_value (JObj acc) (Some (decode k)) :: below) g7 0
-              _ x7 nb lo7 None (tl_ ++ rest) Hf7 Hwd) as (f8 & x8 & Hf8 & ->).
+  ws_step sb Hwd. rename f1 into f8.
   subst tl_. destruct r as [|y r].
   - cbn [app].
     match goal with |- context [run_f sb f8 _ (T c _ ?gg 0 ?oo) (mkloc ?xx nb ?ll None)] =>
